@@ -450,8 +450,8 @@ func genCase(t *rapid.T) caseA {
 	for {
 		c.Spec.Op = rapid.SampledFrom(cat.Names()).Draw(t, "op")
 		if rapid.IntRange(0, 9).Draw(t, "copy_bias") == 0 {
-			// the two operations whose decision is about a second object as well
-			c.Spec.Op = rapid.SampledFrom([]string{"CopyObject", "UploadPartCopy"}).Draw(t, "copy_op")
+			// the operations whose decision is about more than one object
+			c.Spec.Op = rapid.SampledFrom([]string{"CopyObject", "UploadPartCopy", "DeleteObjects"}).Draw(t, "copy_op")
 		}
 		e := cat.Lookup(c.Spec.Op)
 		if e.Level != "service" && c.Spec.Op != "GetObjectVersion" && c.Spec.Op != "DeleteObjectVersion" {
@@ -471,10 +471,17 @@ func genCase(t *rapid.T) caseA {
 		}
 	}
 	c.Caller = rapid.SampledFrom([]string{"bob", "bob", "carol", "carol", "alice", "dave"}).Draw(t, "caller")
+	if c.Spec.Op == "DeleteObjects" {
+		c.Keys = rapid.SliceOfNDistinct(rapid.SampledFrom([]string{"a", "b", "ab", "dir/a", "dir/b", "obj1"}), 1, 4, rapid.ID[string]).Draw(t, "keys")
+	}
 	if c.Mode == "policy" && c.Spec.Bucket == "A" && (c.Caller == "bob" || c.Caller == "carol") && rapid.IntRange(0, 4).Draw(t, "aimed") == 0 {
 		// a policy aimed at this very request: a broad Allow and a Deny whose resource is derived from the key the
-		// request names (the key, its directory, a pattern over it) - the Deny must bind whatever shape the key has
+		// request names (the key, its directory, a pattern over it) - the Deny must bind whatever shape the key has;
+		// for a batch delete the Deny is aimed at one key of the batch
 		k := strings.TrimPrefix(c.Spec.Key, "=")
+		if len(c.Keys) > 0 {
+			k = rapid.SampledFrom(c.Keys).Draw(t, "aimed_batch_key")
+		}
 		narrow := []string{k, k + "*", "*" + k[1:], k[:len(k)-1] + "?"}
 		if i := strings.LastIndex(strings.TrimSuffix(k, "/"), "/"); i >= 0 {
 			narrow = append(narrow, k[:i+1]+"*", k[:i]+"/?*")
@@ -491,9 +498,6 @@ func genCase(t *rapid.T) caseA {
 		} else {
 			c.Stmts = []model.Statement{allow, deny}
 		}
-	}
-	if c.Spec.Op == "DeleteObjects" {
-		c.Keys = rapid.SliceOfNDistinct(rapid.SampledFrom([]string{"a", "b", "ab", "dir/a", "dir/b", "obj1"}), 1, 4, rapid.ID[string]).Draw(t, "keys")
 	}
 	return c
 }
